@@ -96,6 +96,12 @@ func fileFixtures(r *rand.Rand, thorough bool) []*fileFixture {
 	// interior nodes of UnixFS type Raw (with sizes): over dag-pb leaves and over raw leaves
 	hand(handFileOpts{Width: 3, PBLeaves: true, LeafType: 2, InteriorRaw: true}, 47)
 	hand(handFileOpts{Width: 2, PBLeaves: false, InteriorRaw: true}, 38)
+	// link Tsize is advisory for dag-pb children: zero, absent or tiny values with correct block sizes
+	hand(handFileOpts{Width: 3, PBLeaves: true, LeafType: 2, PBTsize: 1}, 44)
+	hand(handFileOpts{Width: 2, PBLeaves: false, PBTsize: 2}, 41)
+	hand(handFileOpts{Width: 3, PBLeaves: true, LeafType: 2, PBTsize: 3}, 46)
+	hand(handFileOpts{Width: 2, PBLeaves: true, LeafType: 0, PBTsize: 2}, 39)
+	hand(handFileOpts{Width: 3, PBLeaves: false, HighMode: true}, 42)
 	{
 		// an empty chunk in the middle (declared block size 0)
 		st := store.New()
